@@ -15,7 +15,7 @@ Proof.
   unfold E.sanitize. induction (dec_all s) as [|r rs IH]; [reflexivity|].
   cbn [map forallb]. rewrite IH, andb_true_r.
   destruct (E.word_rune r) eqn:W; [|reflexivity].
-  unfold E.word_rune in W. unfold idchar, letterb, digitb; cls.
+  unfold E.word_rune in W. unfold idchar, letterb, contb; cls.
   rewrite b2n_n2b_small by lia. lia.
 Qed.
 
